@@ -46,6 +46,7 @@ NSNone == {}
 NSAll == {"relay", "dial", "other"}
 NSRelay == {"relay"}
 NSOther == {"other"}
+NSDialOther == {"dial", "other"}
 NSRelayOther == {"relay", "other"}
 ENone == {}
 ERelay == {"relay"}
